@@ -685,6 +685,98 @@ pub fn run(ctx: &mut Ctx) {
     }
   }
 
+  // ---------------------------------------------------------------- automatic waist positions: both beams, every route
+  {
+    let pm_types = [PMType::Type0_o_oo, PMType::Type0_e_ee, PMType::Type1_e_oo, PMType::Type2_e_eo, PMType::Type2_e_oe];
+    let zdir = || nalgebra::Unit::new_normalize(Vector3::z());
+    // the statement on a finished setup: position = −L/(2n), n = index along z at the beam's own λ and polarisation
+    let check = |ctx: &mut Ctx, spdc: &SPDC, route: &str, det: &str| {
+      let len = *(spdc.crystal_setup.length / M);
+      for (who, beam, z) in [
+        ("signal", spdc.signal.clone().as_beam(), *(spdc.signal_waist_position / M)),
+        ("idler", spdc.idler.clone().as_beam(), *(spdc.idler_waist_position / M)),
+      ] {
+        let nz = *spdc.crystal_setup.index_along(beam.vacuum_wavelength(), zdir(), beam.polarization());
+        let expect = -len / (2.0 * nz);
+        ctx.s(
+          "C13.waist_position",
+          (z - expect).abs() <= 4.0 * f64::EPSILON * expect.abs(),
+          &format!("waist-position/{}", who),
+          &format!("{} route={} beam={} beam_lambda={:e} beam_pol={} L={:e} z={:e} expect={:e} n_z={}", det, route, who, *(beam.vacuum_wavelength() / M), pol_tok(beam.polarization()), len, z, expect, nz),
+        );
+      }
+    };
+    for c in CRYSTALS.iter() {
+      for (pi, pm) in pm_types.iter().enumerate() {
+        for j in 0..(if ctx.thorough { 6 } else { 1 }) {
+          let (lo, hi) = super::index::window(c);
+          // a NON-degenerate pair inside the window: λs = r·λp, λi = λp·r/(r−1)
+          let lp = ctx.rng.range(lo.max(hi / 6.0), hi / 2.45);
+          let r = ctx.rng.range(1.7, 1.95);
+          let (ls, li) = (lp * r, lp * r / (r - 1.0));
+          let ctheta_deg = ctx.rng.range(5.0, 90.0);
+          let cphi_deg = *ctx.rng.pick(&[0.0, 90.0, 37.0]);
+          let t_c = gen_temp(&mut ctx.rng);
+          let len_um = ctx.rng.log_range(100.0, 50_000.0);
+          let det = format!(
+            "crystal={} pm_type={} ctheta_deg={:e} cphi_deg={} T={} L_um={:e} lambda_p={:e} lambda_s={:e} lambda_i={:e}",
+            c, pm, ctheta_deg, cphi_deg, t_c, len_um, lp, ls, li
+          );
+          let base = |sig_pos: AutoCalcParam<f64>, idler: AutoCalcParam<IdlerConfig>| SPDCConfig {
+            crystal: CrystalConfig {
+              kind: c.clone(),
+              pm_type: *pm,
+              phi_deg: cphi_deg,
+              theta_deg: AutoCalcParam::Param(ctheta_deg),
+              length_um: len_um,
+              temperature_c: t_c,
+              counter_propagation: false,
+            },
+            pump: PumpConfig { wavelength_nm: lp * 1e9, waist_um: 100.0, bandwidth_nm: 5.0, average_power_mw: 1.0, spectrum_threshold: None },
+            signal: SignalConfig { wavelength_nm: ls * 1e9, phi_deg: 0.0, theta_deg: Some(if j % 2 == 0 { 0.0 } else { 1.5 }), theta_external_deg: None, waist_um: 100.0, waist_position_um: sig_pos },
+            idler,
+            ..SPDCConfig::default()
+          };
+          let idler_cfg = |pos: AutoCalcParam<f64>| {
+            AutoCalcParam::Param(IdlerConfig { wavelength_nm: li * 1e9, phi_deg: 180.0, theta_deg: Some(if j % 2 == 0 { 0.0 } else { 1.2 }), theta_external_deg: None, waist_um: 80.0, waist_position_um: pos })
+          };
+          let routes: Vec<(&str, Option<SPDC>)> = vec![
+            // config: everything "auto"
+            ("config-auto", guard(|| base(AutoCalcParam::default(), AutoCalcParam::default()).try_as_spdc().ok()).flatten()),
+            // config: explicit idler with its own "auto" position, explicit signal position replaced at runtime below
+            ("config-idler-auto", guard(|| base(AutoCalcParam::default(), idler_cfg(AutoCalcParam::default())).try_as_spdc().ok()).flatten()),
+            // runtime: explicit positions first, then assign_optimal_waist_positions
+            ("assign", guard(|| {
+              base(AutoCalcParam::Param(123.0), idler_cfg(AutoCalcParam::Param(45.0))).try_as_spdc().ok().map(|mut s| {
+                s.assign_optimal_waist_positions();
+                s
+              })
+            }).flatten()),
+            ("assign-auto-idler", guard(|| {
+              base(AutoCalcParam::Param(123.0), AutoCalcParam::default()).try_as_spdc().ok().map(|mut s| {
+                s.assign_optimal_waist_positions();
+                s
+              })
+            }).flatten()),
+            ("with", guard(|| base(AutoCalcParam::Param(7.0), idler_cfg(AutoCalcParam::Param(9.0))).try_as_spdc().ok().map(|s| s.with_optimal_waist_positions())).flatten()),
+            // try_as_optimum (poling off: re-optimises the crystal angle and the idler, then positions both)
+            ("try_as_optimum", guard(|| base(AutoCalcParam::Param(7.0), idler_cfg(AutoCalcParam::Param(9.0))).try_as_spdc().ok().and_then(|s| s.try_as_optimum().ok())).flatten()),
+          ];
+          for (name, made) in routes {
+            match made {
+              Some(spdc) => {
+                ctx.count(&format!("waist/route={}", name));
+                check(ctx, &spdc, name, &det);
+              }
+              None => ctx.count(&format!("waist/route-unavailable={}", name)),
+            }
+          }
+          let _ = pi;
+        }
+      }
+    }
+  }
+
   // ---------------------------------------------------------------- ONE beam and ONE setup, one parameter changed per step
   {
     let steps = if ctx.thorough { 30 } else { 5 };
